@@ -104,7 +104,13 @@ func (g *gen) desc(k int, kind byte, valid bool) *op {
 		o.incl = o.name == "avc1" || r.Intn(3) != 0
 		o.sps = g.nalus(avcSPSPool, false)
 		o.pps = g.nalus(avcPPSPool, true)
+		if len(genAVC) > 0 && r.Intn(4) != 0 { // generated parameter sets: the whole syntax
+			set := genAVC[r.Intn(len(genAVC))]
+			o.sps, o.pps, o.exp = set.sps, set.pps, set.exp
+		}
 		if !valid {
+			o.sps = append([][]byte{}, o.sps...)
+			o.exp = nil
 			switch r.Intn(6) {
 			case 0:
 				o.name = pickS(r, []string{"avc2", "hvc1", ""})
@@ -124,10 +130,16 @@ func (g *gen) desc(k int, kind byte, valid bool) *op {
 		o.vps = g.nalus(hevcVPSPool, true)
 		o.sps = g.nalus(hevcSPSPool, false)
 		o.pps = g.nalus(hevcPPSPool, true)
+		if len(genHEVC) > 0 && r.Intn(4) != 0 {
+			set := genHEVC[r.Intn(len(genHEVC))]
+			o.sps, o.pps, o.exp = set.sps, set.pps, set.exp
+		}
 		if r.Intn(3) == 0 {
 			o.sei = g.nalus(hevcSEIPool, false)
 		}
 		if !valid {
+			o.sps = append([][]byte{}, o.sps...)
+			o.exp = nil
 			switch r.Intn(6) {
 			case 0:
 				o.name = pickS(r, []string{"hvc2", "avc1", ""})
